@@ -168,7 +168,7 @@ func exhaustiveReservedWords(t *testing.T, st *stats.Collector) {
 	st.SetExtra("exhaustive_subspace", "every reserved word x every bare-name position x {UPPER, lower, mIxed} (plus alias and near-reserved controls)")
 }
 
-const ruleC16 = "two parts. (1) Exhaustive: every word of the reserved list (573) x every bare-name position (27 condition positions: either side of a comparator, each function's path and operand arguments, every BETWEEN / IN operand, head of a dotted path, left of [i], under NOT / AND / OR / parentheses, behind an operand that is missing from the item; 9 update positions: SET / REMOVE / ADD / DELETE target, SET right-hand side, if_not_exists path, head of a nested target, second action, second clause; nested path elements unless the open finding F-RESNESTED applies) x {UPPER, lower, mIxed} x three evaluated items (attributes present, absent, of another type) must be rejected by interpreter.Language; the same word behind a #alias and near-reserved neighbours (WORD1, WORD_x, xWORD) must not be rejected as reserved. (2) rapid state machine through both SDK clients against the restriction oracle of the reference model: placeholder configurations (supplied vs used #names / :values with names that are prefixes of one another, unused, undefined, malformed keys; carried by Scan, Put, Delete, Update, Get projections and Query, including the continuation page of a well-formed Query with the same expression texts), key-condition shapes (valid: hash equality alone or AND one sort-key condition of = < <= > >= BETWEEN begins_with, either operand order, parenthesised; invalid: missing hash equality, hash inequality, OR, NOT, non-key attribute, two sort conditions, <>, contains, size, IN), write requests that are neither / both put and delete, batch sizes 0-30 over 1-3 tables: reject -> validation-class error or documented panic and no state change; accept -> no validation error. Non-trivial = every enumerated placement, and generated requests rejected for exactly one reason or accepted while containing a near-miss; distinct = hash of the request."
+const ruleC16 = "two parts. (1) Exhaustive: every word of the reserved list (573) x every bare-name position (27 condition positions: either side of a comparator, each function's path and operand arguments, every BETWEEN / IN operand, head of a dotted path, left of [i], under NOT / AND / OR / parentheses, behind an operand that is missing from the item; 9 update positions: SET / REMOVE / ADD / DELETE target, SET right-hand side, if_not_exists path, head of a nested target, second action, second clause; nested path elements unless the open finding F-RESNESTED applies) x {UPPER, lower, mIxed} x three evaluated items (attributes present, absent, of another type) must be rejected by interpreter.Language; the same word behind a #alias and near-reserved neighbours (WORD1, WORD_x, xWORD) must not be rejected as reserved. (2) rapid state machine through both SDK clients against the restriction oracle of the reference model: placeholder configurations (supplied vs used #names / :values with names that are prefixes of one another, unused, undefined, malformed keys incl. a key of the other map's form; carried by Scan, Put, Delete, Update, Get projections and Query, including the continuation page of a well-formed Query with the same expression texts), key-condition shapes (valid: hash equality alone or AND one sort-key condition of = < <= > >= BETWEEN begins_with, either operand order, parenthesised; invalid: missing hash equality, hash inequality, OR, NOT, non-key attribute, two sort conditions, <>, contains, size, IN), write requests that are neither / both put and delete, batch sizes 0-30 over 1-3 tables: reject -> validation-class error or documented panic and no state change; accept -> no validation error. Non-trivial = every enumerated placement, and generated requests rejected for exactly one reason or accepted while containing a near-miss; distinct = hash of the request."
 
 // TestC16 decides property C16.
 func TestC16(t *testing.T) {
@@ -268,11 +268,17 @@ func TestC16(t *testing.T) {
 					delete(op.Values, usedV[0])
 					class = "undefined-value"
 				case 4:
-					bad := rapid.SampledFrom([]string{"p", "#", "#a-b", "#a b", "##a", "#a.b", ""}).Draw(rt, "badNameKey")
+					// (the last candidate is a key of the other map: well-formed there,
+					// malformed here, and mentioned by the expression)
+					bad := rapid.SampledFrom([]string{"p", "#", "#a-b", "#a b", "##a", "#a.b", "", usedV[0], usedV[0]}).Draw(rt, "badNameKey")
 					op.Names[bad] = "a"
 					class = "malformed-name-key"
 				case 5:
-					bad := rapid.SampledFrom([]string{"v", ":", ":a-b", ":a b", "::a", ":a.b"}).Draw(rt, "badValueKey")
+					cands := []string{"v", ":", ":a-b", ":a b", "::a", ":a.b"}
+					if len(usedN) > 0 {
+						cands = append(cands, usedN[0], usedN[0])
+					}
+					bad := rapid.SampledFrom(cands).Draw(rt, "badValueKey")
 					op.Values[bad] = model.Str("a")
 					class = "malformed-value-key"
 				}
